@@ -340,6 +340,12 @@ pub fn op_resolve<B: Be>(mut doc: B, p: &Pointer, mutable: bool) -> String {
     let mut law_locate = Law::new();
     if let Some(i) = &info {
         locate_law(&mut law_locate, p, i, reference.as_ref().map(|_| ()));
+        // the same label as a report renders it: error + subject -> `Report` -> `miette::Diagnostic::labels`
+        if let Some(Err(e2)) = guard(|| doc.resolve(p).map(|_| ())) {
+            let rep = jsonptr::diagnostic::Diagnostic::into_report(e2, p.to_buf());
+            let via = guard(|| miette::Diagnostic::labels(&rep).and_then(|mut it| it.next()).map(|ls| (ls.offset(), ls.len())));
+            law_locate.ck(via == i.label, "report_label_differs_from_the_error_label");
+        }
     }
     let mut law_mut_same = Law::new();
     match (&primary, &other) {
@@ -578,6 +584,12 @@ pub fn op_assign<B: Be>(mut doc: B, p: &Pointer, v: B) -> String {
     if let Some(i) = &info {
         let reference = ref_assign_walk(&old, &toks);
         locate_law(&mut law_locate, p, i, reference.as_ref().map(|_| ()));
+        let mut again = old.clone();
+        if let Some(Err(e2)) = guard(|| again.assign(p, v.clone()).map(|_| ())) {
+            let rep = jsonptr::diagnostic::Diagnostic::into_report(e2, p.to_buf());
+            let via = guard(|| miette::Diagnostic::labels(&rep).and_then(|mut it| it.next()).map(|ls| (ls.offset(), ls.len())));
+            law_locate.ck(via == i.label, "report_label_differs_from_the_error_label");
+        }
     }
     o.law("law_atomic", &law_atomic);
     o.law("law_ryw", &law_ryw);
@@ -685,6 +697,19 @@ pub fn op_delete<B: Be>(mut doc: B, p: &Pointer) -> String {
                             law_removed.ck(doc.to_doc() == want, "document_is_not_old_minus_that_node");
                         } else {
                             law_removed.fail("reference_removal_failed");
+                        }
+                        // "… with just that object member removed": the members that stay keep their order (visible when
+                        // the map type iterates in insertion order — a `swap_remove` moves the last member into the hole)
+                        let ptoks = &toks[..toks.len() - 1];
+                        if let (Ok((po, _)), Ok((pn, _))) = (ref_walk(&old, ptoks), ref_walk(&doc, ptoks)) {
+                            if po.is_obj() && pn.is_obj() {
+                                let (mut ko, mut kn): (Vec<String>, Vec<String>) = (Vec::new(), Vec::new());
+                                po.each_member(&mut |k, _| ko.push(k.to_string()));
+                                pn.each_member(&mut |k, _| kn.push(k.to_string()));
+                                let gone = unescape(toks[toks.len() - 1]);
+                                ko.retain(|k| *k != gone);
+                                law_removed.ck(ko == kn, "remaining_members_changed_their_order");
+                            }
                         }
                     }
                 }
